@@ -526,11 +526,14 @@ fn process_request_obj(request: &Request, dbs: &Arc<Databases>, client: &mut Cli
             opp_id,
         } => {
             log::debug!("ack send_message_to_secoundary {} {}", opp_id, request_str);
-            client
+            match client
                 .sender
                 .clone()
                 .try_send(format!("ack {} {} \n", opp_id, dbs.external_tcp_address))
-                .unwrap();
+            {
+                Ok(_) => (),
+                Err(e) => log::warn!("Request::ReplicateRequest ack sender.send Error: {}", e),
+            }
             match process_request(&request_str, &dbs, client) {
                 Response::Error { msg } => {
                     log::warn!("Error to process message {}, error: {}", opp_id, msg);
